@@ -84,6 +84,7 @@ type Entry struct {
 	AcctMeta   map[string]map[string]string
 	Marker     string
 	MatchKey   string
+	Published  int // events that described this entry (C16)
 }
 
 func decodeEntry(idx int, r *Row) (*Entry, error) {
